@@ -108,6 +108,106 @@ impl Domain for CrashDomain {
     }
 }
 
+/// Concurrent histories cut at crash points (C04: safe image; C05: synced data). The two
+/// concurrency known findings of C06/C07 (a discard racing other calls; slice eviction while
+/// several tasks run) corrupt metadata on their own, so their shapes are removed from every case
+/// by construction and counted under `excluded`.
+pub struct ConcCrashDomain {
+    pub name: &'static str,
+    pub quick: u64,
+    pub thorough: u64,
+    pub cfg: fn() -> CrashCfg,
+    pub sync: bool,
+    pub owns: fn(&Violation) -> bool,
+    pub nontrivial: fn(&CrashRun) -> bool,
+}
+
+fn conc_crash_profile() -> crate::conc::ConcProfile {
+    crate::conc::ConcProfile {
+        base: Profile {
+            sched_pct: 100,
+            max_clusters: 32,
+            cb_weights: [35, 25, 20, 15, 5, 0],
+            max_cluster_bits: 14,
+            depth_weights: [70, 24, 5, 1],
+            ..Profile::default()
+        },
+        max_batches: 4,
+        max_tasks: 5,
+        max_calls: 3,
+        op_weights: [58, 8, 10, 18, 6],
+        small_cache_pct: 50,
+    }
+}
+
+impl Domain for ConcCrashDomain {
+    fn name(&self) -> &'static str {
+        self.name
+    }
+    fn cases(&self, tier: Tier) -> u64 {
+        match tier {
+            Tier::Quick => self.quick,
+            Tier::Thorough => self.thorough,
+        }
+    }
+    fn strategy(&self, _tier: Tier) -> BoxedStrategy<RawCase> {
+        raw_strategy(16, 40, 400, 200).boxed()
+    }
+    fn decode(&self, raw: &RawCase, _excl: &Exclusions) -> Value {
+        let mut conc = crate::conc::decode_conc(raw, &conc_crash_profile());
+        crate::conc::remove_shapes(&mut conc, true, true);
+        serde_json::to_value(ConcCrashCase { conc, crash: raw.extra.clone() }).unwrap()
+    }
+    fn run(&self, case: &Value, _excl: &Exclusions) -> CaseResult {
+        let case: ConcCrashCase = match serde_json::from_value(case.clone()) {
+            Ok(c) => c,
+            Err(e) => {
+                return CaseResult {
+                    verdict: Verdict::Inconclusive(format!("bad case: {e}")),
+                    nontrivial: false,
+                    classes: vec![],
+                    excluded: vec![],
+                    counters: vec![],
+                }
+            }
+        };
+        let run = run_crash_conc(&case, &(self.cfg)(), self.sync);
+        let verdict = if let Some(m) = &run.inconclusive {
+            Verdict::Inconclusive(m.clone())
+        } else {
+            match &run.violation {
+                None => Verdict::Pass,
+                Some(v) if (self.owns)(v) => Verdict::Violation(v.clone().tag("concurrent_history")),
+                Some(v) => Verdict::Foreign(v.clone()),
+            }
+        };
+        let st = &run.stats;
+        let mut classes = Vec::new();
+        let mut add = |b: bool, s: &str| {
+            if b {
+                classes.push(s.to_string());
+            }
+        };
+        add(st.points_inside_flush > 0, "crash_inside_batch_with_flush");
+        add(st.points_inside_write > 0, "crash_inside_write_batch");
+        add(st.points_inside_discard > 0, "crash_inside_discard_batch");
+        add(st.torn_images > 0, "torn_images");
+        add(st.max_volatile >= 4, "volatile_ge_4");
+        add(st.durable_checks > 0, "durable_checked");
+        add(st.later_op_shares_cluster > 0, "later_op_on_synced_cluster");
+        add(case.conc.layers.len() > 1, "backing_chain");
+        add(run.foreign.is_some(), "history_cut_short");
+        add(case.conc.batches.iter().any(|b| b.len() > 1 && b.iter().flatten().any(|o| matches!(o, crate::case::Op::Flush))), "flush_concurrent_with_other_calls");
+        CaseResult {
+            verdict,
+            nontrivial: (self.nontrivial)(&run),
+            classes,
+            excluded: case.conc.excluded.clone(),
+            counters: vec![("crash_images".into(), st.distinct_images as u64)],
+        }
+    }
+}
+
 fn crash_profile() -> Profile {
     Profile {
         max_ops: 25,
@@ -153,7 +253,8 @@ impl Prop for C04 {
         crash_assumptions()
     }
     fn domains(&self) -> Vec<Box<dyn Domain>> {
-        vec![Box::new(CrashDomain {
+        vec![
+        Box::new(CrashDomain {
             name: "crash",
             quick: 2_000,
             thorough: 60_000,
@@ -169,6 +270,22 @@ impl Prop for C04 {
             force_syncs: false,
             tweak: super::seqdom::no_tweak,
             case_tags: super::seqdom::no_tags,
+            owns: |v| v.has_tag("crash") && matches!(v.rule, Rule::CheckCorrupt | Rule::CheckUnder),
+            nontrivial: |r| r.stats.nontrivial_images > 0,
+        }),
+        Box::new(ConcCrashDomain {
+            name: "conc",
+            quick: 1_500,
+            thorough: 45_000,
+            cfg: || CrashCfg {
+                check_safe: true,
+                check_durable: false,
+                max_points: 50,
+                max_subset_k: 5,
+                torn_per_point: 2,
+                max_images: 300,
+            },
+            sync: false,
             owns: |v| v.has_tag("crash") && matches!(v.rule, Rule::CheckCorrupt | Rule::CheckUnder),
             nontrivial: |r| r.stats.nontrivial_images > 0,
         })]
@@ -198,7 +315,8 @@ impl Prop for C05 {
         crash_assumptions()
     }
     fn domains(&self) -> Vec<Box<dyn Domain>> {
-        vec![Box::new(CrashDomain {
+        vec![
+        Box::new(CrashDomain {
             name: "crash",
             quick: 2_000,
             thorough: 50_000,
@@ -214,6 +332,22 @@ impl Prop for C05 {
             force_syncs: true,
             tweak: super::seqdom::no_tweak,
             case_tags: super::seqdom::no_tags,
+            owns: |v| v.has_tag("durable"),
+            nontrivial: |r| r.stats.durable_checks > 0 && r.stats.nontrivial_images > 0,
+        }),
+        Box::new(ConcCrashDomain {
+            name: "conc",
+            quick: 1_500,
+            thorough: 40_000,
+            cfg: || CrashCfg {
+                check_safe: false,
+                check_durable: true,
+                max_points: 40,
+                max_subset_k: 4,
+                torn_per_point: 2,
+                max_images: 120,
+            },
+            sync: true,
             owns: |v| v.has_tag("durable"),
             nontrivial: |r| r.stats.durable_checks > 0 && r.stats.nontrivial_images > 0,
         })]
